@@ -44,6 +44,9 @@ def run(ck):
     ck.rule("R2", "writer and reader agree on byte order", floor=5)
     ck.rule("R3", "writing a cell's original content back removes the stored byte", floor=1)
     ck.rule("R4", "state export/import goes through the same read/write API and covers ids and memory", floor=4)
+    ck.rule("R6", "SymbolMngr store discipline: every path of write() updates the matching table; no bypass, no removal instead of a store", floor=10)
+    from rules._symstore import symstore_rules
+    symstore_rules(ck, "R6")
 
     # ---------------------------------------------------------------- R1
     from sa.astutil import Resolver
